@@ -83,3 +83,18 @@ package resource
 //@   ensures c.Version == "" && c.Fragment != "" ==> res == c.Url + "#" + c.Fragment
 //@   ensures c.Version != "" && c.Fragment != "" ==> res == c.Url + "|" + c.Version + "#" + c.Fragment
 //@   assigns nothing
+
+// C19: derived identities keep type and id and set exactly the version asked for
+//@ func (i *Identity) Unversioned() (res)
+//@   requires i != nil
+//@   ensures res != nil && res.typeName == i.typeName && res.id == i.id && res.version == ""
+//@   fresh res
+//@ func (i *Identity) WithNewVersion(versionID) (res)
+//@   requires i != nil
+//@   ensures res != nil && res.typeName == i.typeName && res.id == i.id && res.version == versionID
+//@   fresh res
+//@ func (i *Identity) PreferRelativeVersionedURI() (res)
+//@   requires i != nil
+//@   ensures res != nil
+//@   ensures i.version != "" ==> res.Value == sprintf_SSS("%v/%v/_history/%v", string(i.typeName), i.id, i.version)
+//@   ensures i.version == "" ==> res.Value == sprintf_SS("%v/%v", string(i.typeName), i.id)
